@@ -195,14 +195,17 @@ structure VFile where
 
 def VFile.member (f : VFile) (t l s : Nat) : Vec := (List.range f.M).map fun m => f.ens t l s m
 
-/-- accumulate.py: both fields are accumulated, everything else is copied.  `none` = the script
-stops (window too long, or a field is absent: the code has no guard for that and crashes). -/
+/-- accumulate.py on one field of the file: an absent field (a verif file may hold only obs or
+only fcst) stays absent; `none` = the script stops (window too long) -/
+def accumulateField (axis : Axis) (w : Option Nat) (ignore : Bool) : Option Arr3 → Option (Option Arr3)
+  | none => some none
+  | some a => (accumulate3 axis w ignore a).map some
+
+/-- accumulate.py: the fields that are present are accumulated, an absent field is not written,
+everything else is copied.  `none` = the script stops (window too long). -/
 def accumulateFile (axis : Axis) (w : Option Nat) (ignore : Bool) (f : VFile) : Option VFile :=
-  match f.obs, f.fcst with
-  | some o, some fc =>
-    match accumulate3 axis w ignore o, accumulate3 axis w ignore fc with
-    | some o', some fc' => some { f with obs := some o', fcst := some fc' }
-    | _, _ => none
+  match accumulateField axis w ignore f.obs, accumulateField axis w ignore f.fcst with
+  | some o', some fc' => some { f with obs := o', fcst := fc' }
   | _, _ => none
 
 /-- window.py -/
